@@ -1,4 +1,5 @@
 //! Runs the real implementation on case files; prints canonical observations (one JSON per line).
+mod borrow;
 mod collect;
 mod config;
 mod own;
@@ -18,6 +19,7 @@ fn main() {
         "own" => own::run(&input),
         "config" => config::run(&input),
         "collect" => collect::run(&input),
+        "borrow" => borrow::run(&input),
         other => {
             eprintln!("unknown area {other}");
             std::process::exit(2);
